@@ -10,6 +10,9 @@
 //   - a ref argument is passed as the NAME of the resource (ReadArchetypeResourceLocal of the
 //     caller's own ref parameter, or a literal name), the callee dereferences it with
 //     RequireArchetypeResourceRef;
+//   - a procedure's OWN parameter or local lent by reference (`call Borrow(ref da, ref dw, ..)`
+//     inside Lend) is passed as the literal name of the state variable ("Lend.da"), the shape
+//     the generator emits for a ref to a local (bug_119.go: tla.MakeString("Counter.value"));
 //   - all reads/writes of state variables go through iface.Read / iface.Write.
 //
 // The only liberty taken: the globals res/out are reached by their fixed resource names
@@ -145,6 +148,10 @@ var procsProcTable = distsys.MakeMPCalProcTable(
 			s.wr("Node.i", num(1))
 			s.wr("Node.loc", plus(times(s.rd("Node.id"), num(7)), s.rd("Node.tr")))
 		})},
+	distsys.MPCalProc{Name: "Lend", Label: "Lend.d1", StateVars: []string{"Lend.dn", "Lend.dw", "Lend.dt", "Lend.da"},
+		PreAmble: preamble(func(s sx) { s.wr("Lend.da", times(s.rd("Lend.dn"), num(10))) })},
+	distsys.MPCalProc{Name: "Borrow", Label: "Borrow.w1", StateVars: []string{"Borrow.wx", "Borrow.wy", "Borrow.wm", "Borrow.wt"},
+		PreAmble: preamble(func(s sx) {})},
 )
 
 var procsJumpTable = distsys.MakeMPCalJumpTable(
@@ -319,6 +326,40 @@ var procsJumpTable = distsys.MakeMPCalJumpTable(
 		return s.iface.Goto("Node.t1")
 	}),
 	errorSection("Node"),
+	// ------------------------------------------------------------------ lend, lendt
+	// Lend lends its own local da and its own parameter dw by reference; Borrow reads and writes
+	// them through its ref parameters wx, wy and re-enters Lend (call / tail call).
+	section("Lend.d1", func(s sx) error {
+		if eq(s.rd("Lend.dn"), num(0)) {
+			s.appendOut(num(0), s.rd("Lend.dw"), s.rd("Lend.da"))
+			return s.iface.Return()
+		}
+		return s.iface.Call("Borrow", "Lend.d2", str("Lend.da"), str("Lend.dw"), s.rd("Lend.dn"), s.rd("Lend.dt"))
+	}),
+	section("Lend.d2", func(s sx) error {
+		s.appendOut(s.rd("Lend.dn"), s.rd("Lend.dw"), s.rd("Lend.da"))
+		return s.iface.Return()
+	}),
+	errorSection("Lend"),
+	section("Borrow.w1", func(s sx) error {
+		s.wrRef("Borrow.wx", plus(s.rdRef("Borrow.wx"), s.rd("Borrow.wm")))
+		return s.iface.Goto("Borrow.w2")
+	}),
+	section("Borrow.w2", func(s sx) error {
+		s.wrRef("Borrow.wy", plus(times(s.rdRef("Borrow.wy"), num(2)), s.rdRef("Borrow.wx")))
+		return s.iface.Goto("Borrow.w3")
+	}),
+	section("Borrow.w3", func(s sx) error {
+		if s.rd("Borrow.wt").AsBool() {
+			return s.iface.TailCall("Lend", minus(s.rd("Borrow.wm"), num(1)), plus(s.rdRef("Borrow.wy"), num(1)), s.rd("Borrow.wt"))
+		}
+		return s.iface.Call("Lend", "Borrow.w4", minus(s.rd("Borrow.wm"), num(1)), plus(s.rdRef("Borrow.wy"), num(1)), s.rd("Borrow.wt"))
+	}),
+	section("Borrow.w4", func(s sx) error {
+		s.appendOut(tla.ModuleNegationSymbol(s.rd("Borrow.wm")), s.rdRef("Borrow.wx"), s.rdRef("Borrow.wy"))
+		return s.iface.Return()
+	}),
+	errorSection("Borrow"),
 	// ------------------------------------------------------------------ main
 	section("Main.m0", func(s sx) error {
 		prog, arg := s.rd("Main.prog").AsString(), s.rd("Main.arg")
@@ -335,6 +376,10 @@ var procsJumpTable = distsys.MakeMPCalJumpTable(
 			return s.iface.Call("N1", "Main.m1", arg)
 		case "ref":
 			return s.iface.Call("Both", "Main.m1", str("&Main.g1"), str("&Main.g2"), arg)
+		case "lend":
+			return s.iface.Call("Lend", "Main.m1", arg, num(7), tla.ModuleFALSE)
+		case "lendt":
+			return s.iface.Call("Lend", "Main.m1", arg, num(7), tla.ModuleTRUE)
 		default:
 			return s.iface.Call("Node", "Main.m1", arg, num(1))
 		}
